@@ -14,6 +14,7 @@ type Gen struct {
 	Alias  bool // wrap sub-terms in (alias T) now and then
 	NoIter bool // never produce Iterable (outside the reference fragment of C02)
 	NoUnit bool // never produce Unit (excluded by C01 and C03)
+	Call   bool // produce Callable types too (opt-in: the describer of C19 has its own model of Callable expectations)
 	pool   []Ty // recently made (alias T) terms: re-used so that ONE alias object occurs at several places of a term
 }
 
@@ -158,6 +159,40 @@ func (g *Gen) tstamp() Ty {
 		return Tstamp(tsvPool[i][0], tsvPool[i][1], TsMaxSec, TsMaxNs)
 	}
 	return Tstamp(tsvPool[i][0], tsvPool[i][1], tsvPool[j][0], tsvPool[j][1])
+}
+
+// callable: params a Tuple (or absent), return a type (or absent), block a Callable / Optional[Callable] (or absent); now and then the
+// shapes only the Go constructor can make (a parameter type that is no Tuple is left out: printing it is not defined)
+func (g *Gen) callable(d int) Ty {
+	var ps [3]*Ty
+	if g.p(75) {
+		n := g.n(3)
+		ts := make([]Ty, n)
+		for i := range ts {
+			ts[i] = g.Ty(d)
+		}
+		p := Tup(ts)
+		if g.p(25) {
+			lo, hi := g.Size()
+			p = TupSz(ts, lo, hi)
+		}
+		ps[0] = &p
+	}
+	if g.p(55) {
+		r := g.Ty(d)
+		ps[1] = &r
+	}
+	if g.p(30) {
+		b := g.callable(0)
+		if d <= 0 {
+			b = Call(nil, nil, nil)
+		}
+		if g.p(40) {
+			b = Opt(b)
+		}
+		ps[2] = &b
+	}
+	return Call(ps[0], ps[1], ps[2])
 }
 
 // runtime: a Runtime type without a Go type.  (Runtime['go', name] cannot be built without one: the name stays empty for 'go'.)
@@ -333,6 +368,9 @@ func (g *Gen) ty(depth int) Ty {
 	case 10:
 		return NU(g.Ty(d))
 	case 11:
+		if g.Call && g.p(30) {
+			return g.callable(d)
+		}
 		return TypeOf(g.Ty(d))
 	case 12:
 		if g.p(35) {
